@@ -19,8 +19,9 @@ pub const SCALES: [f64; 3] = [1.0, 10.0, 100.0];
 pub const ALPHAS: [f64; 4] = [0.0, 1e-3, 1.0, 10.0];
 pub const SIGNALS: [f64; 4] = [0.0, 0.7, 2.0, 5.0];
 pub const TOLS: [f64; 2] = [1e-4, 1e-6];
-/// first fit; a non-stationary result is re-fitted with twice as many iterations (the DESIGN's 2000)
-pub const MAX_ITER: u64 = 1000;
+/// first fit; a non-stationary result is re-fitted with twice as many iterations; kept moderate so that the
+/// slowest legitimate case (four capped fits with six classes) stays far below the per-case time limit
+pub const MAX_ITER: u64 = 500;
 /// alpha used instead of 0 when the harness cannot certify that the data are not separable
 pub const FORCED_ALPHA: f64 = 1.0;
 /// certificate of non-separability: own Newton solution of the alpha = 0 problem with
@@ -274,6 +275,28 @@ pub fn not_separable(d: &Derived, intercept: bool, multi: bool) -> bool {
         }
         (0..d.n).all(|i| model::softmax(&obj.scores(&pl.theta, i)).iter().all(|q| *q >= CERT_PROB))
     }
+}
+
+/// For a multinomial case whose fit never returned: does the harness' own minimiser (Newton from zero, the case's
+/// alpha) or the solver's first trial point lie in or near the region where linfa's log_sum_exp clamp acts?
+/// Returns the larger of the two row deficits.
+pub fn deficit_at_own_minimiser(case: &LogitCase) -> Option<f64> {
+    let d = derive(case)?;
+    if !case.multi {
+        return None;
+    }
+    let mut alpha = ALPHAS[(case.alpha_ix as usize).min(3)];
+    if alpha == 0.0 && !not_separable(&d, case.intercept, true) {
+        alpha = FORCED_ALPHA;
+    }
+    let obj = Multi { x: &d.x, c: &d.c, p: d.p, k: d.k, intercept: case.intercept, alpha };
+    let pl = model::polish(&obj, &vec![0.0; obj.dim()], 200)?;
+    // L-BFGS' first trial point is start - 1 * gradient (start = zeros unless initial parameters were given; the
+    // rough location is all that matters here). With un-normalised features it lies deep inside the clamp region.
+    let t0 = vec![0.0; obj.dim()];
+    let g = obj.grad(&t0);
+    let t1: Vec<f64> = t0.iter().zip(&g).map(|(a, b)| a - b).collect();
+    Some(obj.max_row_deficit(&pl.theta).max(obj.max_row_deficit(&t1)))
 }
 
 pub trait Lab: Ord + Clone + Default + Debug + 'static {}
